@@ -165,12 +165,25 @@ def run_mc(module, constants, invariants, wd, workers=None, view="View", timeout
 
 
 def write_cases(cases, wd, shards):
-    """split cases round-robin into shard files"""
-    shards = max(1, min(shards, len(cases)))
-    files = [os.path.join(wd, "cases_%02d.ndjson" % i) for i in range(shards)]
+    """split the cases into shard files: at least `shards`, and more when the cases are heavy, so that one
+    shard's recorded trace stays around 30 MB (a trace validator loads its whole trace)"""
+    def weight(c):
+        w = len(c.get("steps", [])) + 2
+        for p in c.get("probes", []):
+            w += (len(p) if isinstance(p, list) else 1) + 3
+        sw = c.get("sweep")
+        if sw:
+            w += 40 * max(1, len(sw.get("ops", []))) * max(1, len(sw.get("conts", [])))
+        return w * (1 + len(c.get("wit", [])))
+    total = sum(weight(c) for c in cases)
+    shards = max(1, min(max(shards, total // 40000 + 1), len(cases)))
+    files = [os.path.join(wd, "cases_%03d.ndjson" % i) for i in range(shards)]
     fh = [open(f, "w") for f in files]
-    for i, c in enumerate(cases):
-        fh[i % shards].write(json.dumps(c) + "\n")
+    load = [0] * shards
+    for c in sorted(cases, key=weight, reverse=True):
+        i = load.index(min(load))
+        fh[i].write(json.dumps(c) + "\n")
+        load[i] += weight(c)
     for f in fh:
         f.close()
     return files
